@@ -27,7 +27,7 @@ def obligations(tier):
            'common.LogPass.FrameArray/FrameChannel', 'common.AbsentValue.mask_absent_values']
     return [
         Ob('las_layout_independence', 'ch', 'LAS 1.2/2.0 (version written with 1 or 2 decimals), 1..4 curves (incl. numeric curves named TIME / DATE, units with dots), 1..2 (1 or 3 thorough) frames, wrap on/off, '
-           'comments (at column 0 or indented by spaces / a tab), blank lines (empty or spaces / tabs; before sections and between data rows), leading spaces, column separator widths, '
+           'comments (at column 0 or indented by spaces / a tab), blank lines (empty or spaces / tabs; before sections and between data rows), leading spaces (section titles indented too), column separator widths, '
            'values per wrapped line, cell vocabulary incl. unparseable tokens; header values typed (signed integers, floats, yes/no, text)',
            fns, harness='C09_las', func='las_layouts_q' if q else 'las_layouts', timeout=280 if q else 2400, parts=16),
         Ob('lenient_reading_repeated_curves', 'ch', 'lenient reading (raise_on_error=False) of LAS 2.0 files whose curve section repeats mnemonics (5 patterns of 4..7 curves, 0..2 repeated, repeats adjacent or apart), '
